@@ -167,6 +167,64 @@ func randomCase(r *rand.Rand, typ string, max int) rh.Case {
 			remote = append(remote, rh.Obj{ID: k, MI: mi, C: cr, H: hr})
 		}
 	}
+	// Scenario family "order-sensitive writes" (about 1 case in 12 of policy / role / config): content 7 is a
+	// value that the store only accepts for one object at a time (a datacenter-unique name; an ExternalSNI that
+	// excludes resolver subsets of the same service). It moves between two objects a < b, in either direction.
+	if (typ == "policy" || typ == "role" || typ == "config") && r.Intn(12) == 0 && c.Last <= 8 {
+		a, b := 1+r.Intn(6), 7+r.Intn(6)
+		other := 5
+		if typ == "config" { // service-defaults/x and service-resolver/x
+			a = 2 + r.Intn(6)
+			b = a + 6
+		} else {
+			other = 1 + r.Intn(6)
+		}
+		put := func(l []rh.Obj, o rh.Obj) []rh.Obj {
+			for i := range l {
+				if l[i].ID == o.ID {
+					l[i] = o
+					return l
+				}
+			}
+			return append(l, o)
+		}
+		mi := c.Last + 1
+		if typ == "config" {
+			if r.Intn(2) == 0 { // resolver drops its subsets, service-defaults gains ExternalSNI
+				local = put(put(local, rh.Obj{ID: a, MI: 1, C: 1, H: 1}), rh.Obj{ID: b, MI: 1, C: other, H: other})
+				remote = put(put(remote, rh.Obj{ID: a, MI: mi, C: 7, H: 7}), rh.Obj{ID: b, MI: mi, C: 1, H: 1})
+			} else { // service-defaults drops ExternalSNI, resolver gains subsets
+				local = put(put(local, rh.Obj{ID: a, MI: 1, C: 7, H: 7}), rh.Obj{ID: b, MI: 1, C: 1, H: 1})
+				remote = put(put(remote, rh.Obj{ID: a, MI: mi, C: 1, H: 1}), rh.Obj{ID: b, MI: mi, C: other, H: other})
+			}
+		} else if r.Intn(2) == 0 { // the name moves from b to a
+			local = put(put(local, rh.Obj{ID: a, MI: 1, C: other, H: other}), rh.Obj{ID: b, MI: 1, C: 7, H: 7})
+			remote = put(put(remote, rh.Obj{ID: a, MI: mi, C: 7, H: 7}), rh.Obj{ID: b, MI: mi, C: other, H: other})
+		} else { // the name moves from a to b
+			local = put(put(local, rh.Obj{ID: a, MI: 1, C: 7, H: 7}), rh.Obj{ID: b, MI: 1, C: other, H: other})
+			remote = put(put(remote, rh.Obj{ID: a, MI: mi, C: other, H: other}), rh.Obj{ID: b, MI: mi, C: 7, H: 7})
+		}
+	}
+	// Scenario family "text moves across a field boundary" (about 1 case in 25 of policy / role): contents 8 and 9
+	// differ in Name and in Description while the concatenation Name+Description is the same.
+	if (typ == "policy" || typ == "role") && r.Intn(25) == 0 && c.Last <= 8 {
+		k := 1 + r.Intn(12)
+		cl, cr := 8, 9
+		if r.Intn(2) == 0 {
+			cl, cr = 9, 8
+		}
+		putk := func(l []rh.Obj, o rh.Obj) []rh.Obj {
+			for i := range l {
+				if l[i].ID == o.ID {
+					l[i] = o
+					return l
+				}
+			}
+			return append(l, o)
+		}
+		local = putk(local, rh.Obj{ID: k, MI: 1, C: cl, H: cl})
+		remote = putk(remote, rh.Obj{ID: k, MI: c.Last + 1, C: cr, H: cr})
+	}
 	c.Sec = append([]rh.Obj(nil), local...)
 	if c.Kind == "acl" {
 		for i := r.Intn(3); i > 0 && r.Intn(2) == 0; i-- { // legacy entries without id, both sides
